@@ -13,10 +13,28 @@ pub fn op_enc(rec: &mut Rec, bs: &[u8]) {
             rec.oracle_fail("C03", "Encoding::try_from panicked", &[op.clone()]);
             rec.op(&op, "PANIC");
         }
-        Ok(Ok(())) => rec.op(&op, "ok"),
-        Ok(Err(e)) => {
-            rec.count(&format!("enc:{}", show_req_err(&e).split('(').next().unwrap()));
-            rec.op(&op, &format!("err {}", show_req_err(&e)))
+        Ok(res) => {
+            // the rule of the property, written out independently of the implementation
+            let expect_reject = match std::str::from_utf8(bs) {
+                Err(_) => true,
+                Ok(s) => {
+                    bs.is_empty()
+                        || s.split(',').any(|item| {
+                            let t = item.trim();
+                            t == "identity;q=0" || (t == "*;q=0" && !s.contains("identity"))
+                        })
+                }
+            };
+            if res.is_err() != expect_reject {
+                rec.oracle_fail("C15", &format!("Accept-Encoding value {:?}: rejected = {}, the rule says {}", String::from_utf8_lossy(bs), res.is_err(), expect_reject), &[op.clone()]);
+            }
+            match res {
+                Ok(()) => rec.op(&op, "ok"),
+                Err(e) => {
+                    rec.count(&format!("enc:{}", show_req_err(&e).split('(').next().unwrap()));
+                    rec.op(&op, &format!("err {}", show_req_err(&e)))
+                }
+            }
         }
     }
 }
